@@ -556,7 +556,7 @@ func main() {
 	for _, sh := range stores.Shapes {
 		for _, ks := range keyLists {
 			for _, ls := range stores.LabelChoices(ks, vals) {
-				for rot := 0; rot < 6; rot += c.Pick(2, 1) {
+				for rot := 0; rot < 7; rot += c.Pick(2, 1) {
 					singles = append(singles, stores.MetricSpec{Shape: sh, Name: "foo", Prog: "p", Keys: ks, Labels: ls, ValRot: rot})
 				}
 			}
